@@ -173,6 +173,63 @@ def gen_cases(rng, tier):
                ("asl", 0), ("fst", 1), ("prune", 2, t), ("prod", 0, 7), ("left", 9, ONE), ("wi", 0, 2), ("ba", rng.bytes(3)),
                ("buf", 0, rng.bytes(2)), ("snd", 10)]
         add(ops, {"gen": "malformed"})
+
+    # --- Value::ctx8 (the constructor itself; width 838: few cases) and slices that are too long
+    for ln in ((0, 5, 64) if tier == "quick" else (0, 1, 31, 32, 33, 63, 64, 70)):
+        ops = [("ctx8", rng.bytes(32), rng.below(2 ** 64), rng.bytes(ln)), ("fst", 0), ("snd", 0)]
+        add(ops, {"gen": "ctx8"})
+    # --- is_of_type: the carried type, not the shape of the element (L(x) : A + B1 is not of type A + B2)
+    for _ in range(40 if tier == "quick" else 400):
+        b = Builder(rng)
+        t = vc.rand_type(rng, rng.below(5))
+        v = vc.rand_value(rng, t)
+        i, _h = b.any_history(t, v)
+        b.add(("isty", i, t))
+        b.add(("isty", i, vc.mutate_type(rng, t)))
+        b.add(("isty", i, vc.shrink_type(rng, t)))
+        j = b.add(("left", i, ONE))
+        b.add(("isty", j, Sum(t, ONE)))
+        b.add(("isty", j, Sum(t, BIT)))
+        b.add(("isty", j, t))
+        if len(b.ops) <= 40:
+            add(b.ops, {"gen": "is_of_type"})
+    # --- end of stream in from_compact_bits: every byte-aligned prefix of an encoding, and of padded ones
+    for _ in range(60 if tier == "quick" else 600):
+        t = vc.rand_type(rng, rng.range(1, 7))
+        v = vc.rand_value(rng, t)
+        ce = compact_enc(v)
+        ops = []
+        for nb in range(0, (len(ce) + 7) // 8 + 2):
+            bs = vc.pack(ce + rng.bits(24))[:nb]
+            ops.append(("cmp", t, bs))
+            if rng.chance(1, 3):
+                ops.append(("pad", t, bs))
+        if len(ops) <= 30:
+            add(ops, {"gen": "eos"})
+
+    # --- sums whose two sides have equal width while only one side contains padding: has_padding of the sum
+    # must come from the summands, not from the width difference (from_compact_bits takes the padded
+    # shortcut only for padding-free types)
+    flat3 = Prod(BIT, Prod(BIT, BIT))                  # width 3, no padding
+    padded3 = Sum(ONE, word(1))                        # width 3, padding in the left case
+    padded5 = Prod(option(BIT), option(BIT))           # width 4 ... used below with word(2)
+    pairs_eq = [(flat3, padded3), (padded3, flat3), (word(2), padded5), (padded5, word(2)),
+                (Prod(word(1), word(1)), Prod(option(BIT), word(1))), (Prod(option(BIT), word(1)), word(2))]
+    for _ in range(4 if tier == "quick" else 40):
+        for (a, b2) in pairs_eq:
+            assert width(a) == width(b2)
+            t = Sum(a, b2)
+            ops = []
+            for side, st in (("L", a), ("R", b2)):
+                for _v in range(3):
+                    v = (side, vc.rand_value(rng, st))
+                    ce = compact_enc(v)
+                    ops.append(("cmp", t, vc.pack(ce + rng.bits(16))))
+                    ops.append(("cmp", Prod(t, t), vc.pack(ce + ce + rng.bits(16))))
+                    ops.append(("cmp", option(t), vc.pack([1] + ce + rng.bits(16))))
+            ops.append(("zero", t))
+            ops.append(("prune", 0, Sum(ONE, b2)))
+            add(ops, {"gen": "equal-width-sums"})
     return cases
 
 
@@ -214,6 +271,8 @@ def prop_check(c, r):
             return ("consumption", "%s: from_padded_bits consumed %s bits, the encoding has %d" % (where, extra, width(t)))
         if name == "cmp" and extra != [len(compact_enc(v))]:
             return ("consumption", "%s: from_compact_bits consumed %s bits, the encoding has %d" % (where, extra, len(compact_enc(v))))
+        if name == "isty" and extra != [1 if t == o[2] else 0]:
+            return ("is-of-type", "%s: is_of_type(%s) answered %s on a value of type %s" % (where, ty_str(o[2])[:40], extra, ty_str(t)[:40]))
         if d["tokens"] != ty_tokens(t):
             return ("prune-type" if name == "prune" else "type", "%s: type of the result is not %s" % (where, ty_str(t)[:60]))
         w = width(t)
@@ -259,7 +318,7 @@ def nontrivial(c, r):
 
 
 def run(rep, tier, rng):
-    vplib.proof_stage(rep, "Props/C10.v", extra_targets=["Value/Run.vo"])
+    vplib.proof_stage(rep, "Props/C10.v", extra_targets=["Value/Run.vo", "Value/RunWord.vo"])
     rep.coverage["trusted_base"] = vplib.GENERIC_TRUSTED + TRUSTED
     binary, out = vplib.harness_build("debug", crate=vc.CRATE)
     if binary is None:
@@ -307,6 +366,10 @@ TRUSTED = [
     "BitIter arguments of the decoders are modelled by their bit queue (justified by C13_reader_next / C13_reader_u8)",
     "widths: Final::bit_width saturates at usize::MAX; theorems are stated for types of width <= usize::MAX (all others need a 2^61-byte buffer)",
     "raw buffer and offset of the implementation are read from the Debug form of Value (fields raw_value / raw_bit_offset)",
+    "Value::ctx8 is modelled as product(buffer8(5), product(u64, u256)) (Value/ValueBuffer.v: v_ctx8); Final::buffer8_two_n_plus_one's "
+    "NTooLarge refusal is not modelled (the theorems assume the buffer type below saturation); is_of_type = structural type equality; "
+    "Final::as_word (TMR lookup) = structural recognition of 2^(2^n), n < 32",
+    "end-of-stream is observable only at byte granularity (BitIter over whole bytes); the theorems are about arbitrary bit lengths",
     "machine outputs: the Bit Machine is not modelled here (C05); the model decodes the output frame contents predicted by the generator",
 ]
 
